@@ -10,7 +10,6 @@ import (
 	"fmt"
 	"io"
 	"sort"
-	"sync"
 	"testing"
 	"testing/synctest"
 	"time"
@@ -328,8 +327,15 @@ func accountID(a any) *uint64 {
 	return u(Unknown)
 }
 
-// runSession runs the whole history of the input on one proposer service (and one signer) inside one
-// bubble and returns what was observed for each duty.
+// overlapBroken is set when overlapping Prepare calls once failed to return (a deadlock in the
+// tree under test): later histories make their Prepare calls one after the other.
+var overlapBroken bool
+
+// runSession runs the whole history of the input on one proposer service (and one signer) and
+// returns what was observed for each duty.  Prepare calls flagged to overlap (they open the order)
+// are made first, in goroutines of their own in real time -- goroutines waiting for a sync.Mutex
+// would stall the fake clock of a bubble for ever -- under a watchdog; every other call is made
+// inside one synctest bubble, one at a time.
 func runSession(t *testing.T, in *Input) []Obs {
 	ds := duties(in)
 	ops := schedule(in, ds)
@@ -338,139 +344,177 @@ func runSession(t *testing.T, in *Input) []Obs {
 	for k := range obs {
 		obs[k].PrepOK = true
 	}
-	var bubble any
-	func() {
-		defer func() {
-			if r := recover(); r != nil {
-				bubble = r
+	together := 0
+	for together < len(ops) && ops[together].Go && ops[together].Op == "prepare" {
+		together++
+	}
+	if overlapBroken {
+		together = 0
+	}
+
+	var (
+		svc      *standardproposer.Service
+		rt       *router
+		worlds   []*world
+		dutyObjs []*beaconblockproposer.Duty
+	)
+	ctx0 := context.Background()
+	setup := func() {
+		tab := &bodyTable{m: map[phase0.Root]uint64{}}
+		rt = &router{head: in}
+		worlds = make([]*world, len(ds))
+		for k, d := range ds {
+			worlds[k] = newWorld(d, tab)
+		}
+		rt.cur = worlds[0]
+		level := zerolog.Disabled
+		if in.Trace {
+			level = zerolog.TraceLevel
+		}
+		signer, err := standardsigner.New(ctx0,
+			standardsigner.WithLogLevel(level),
+			standardsigner.WithMonitor(nullmetrics.New()),
+			standardsigner.WithClientMonitor(nullmetrics.New()),
+			standardsigner.WithSpecProvider(rt),
+			standardsigner.WithDomainProvider(rt),
+		)
+		if err != nil {
+			t.Fatalf("signer constructor: %v", err)
+		}
+		params := []standardproposer.Parameter{
+			standardproposer.WithLogLevel(level),
+			standardproposer.WithMonitor(nullmetrics.New()),
+			standardproposer.WithChainTime(mocks.NewChainTime(in.SPE)),
+			standardproposer.WithProposalDataProvider(rt),
+			standardproposer.WithValidatingAccountsProvider(rt),
+			standardproposer.WithExecutionChainHeadProvider(rt),
+			standardproposer.WithProposalSubmitter(rt),
+			standardproposer.WithRANDAORevealSigner(signer),
+			standardproposer.WithBeaconBlockSigner(signer),
+			standardproposer.WithBlobSidecarSigner(signer),
+			standardproposer.WithUnblindFromAllRelays(in.UnblindAll),
+			standardproposer.WithBuilderBoostFactor(in.Boost),
+		}
+		if in.Graffiti != "none" {
+			params = append(params, standardproposer.WithGraffitiProvider(rGraffiti{rt}))
+		}
+		if in.Auction != "none" {
+			params = append(params, standardproposer.WithBlockAuctioneer(rAuctioneer{rt}))
+		}
+		svc, err = standardproposer.New(ctx0, params...)
+		if err != nil {
+			t.Fatalf("proposer constructor: %v", err)
+		}
+		// the duty objects, as the controller creates them when it learns of the duties
+		dutyObjs = make([]*beaconblockproposer.Duty, len(ds))
+		for k, d := range ds {
+			duty := beaconblockproposer.NewDuty(phase0.Slot(d.Slot), phase0.ValidatorIndex(d.Validator))
+			if d.PreAccount != nil {
+				duty.SetAccount(worlds[k].newAccount(*d.PreAccount))
 			}
+			duty.SetRandaoReveal(sigOf(d.PreRandao))
+			dutyObjs[k] = duty
+		}
+	}
+	// one Prepare call; what it observed is written into *o
+	prepare := func(k int, o *Obs) {
+		w := worlds[k]
+		w.begin(false)
+		func() {
+			defer func() {
+				if r := recover(); r != nil {
+					o.Panic = true
+					o.PanicMsg = fmt.Sprintf("Prepare: %v", r)
+				}
+			}()
+			o.PrepOK = svc.Prepare(rt.with(ctx0, w), dutyObjs[k]) == nil
 		}()
-		synctest.Test(t, func(t *testing.T) {
-			tab := &bodyTable{m: map[phase0.Root]uint64{}}
-			rt := &router{head: in}
-			worlds := make([]*world, len(ds))
-			for k, d := range ds {
-				worlds[k] = newWorld(d, tab)
-			}
-			rt.cur = worlds[0]
-			level := zerolog.Disabled
-			if in.Trace {
-				level = zerolog.TraceLevel
-			}
-			ctx0 := context.Background()
-			signer, err := standardsigner.New(ctx0,
-				standardsigner.WithLogLevel(level),
-				standardsigner.WithMonitor(nullmetrics.New()),
-				standardsigner.WithClientMonitor(nullmetrics.New()),
-				standardsigner.WithSpecProvider(rt),
-				standardsigner.WithDomainProvider(rt),
-			)
-			if err != nil {
-				t.Fatalf("signer constructor: %v", err)
-			}
-			params := []standardproposer.Parameter{
-				standardproposer.WithLogLevel(level),
-				standardproposer.WithMonitor(nullmetrics.New()),
-				standardproposer.WithChainTime(mocks.NewChainTime(in.SPE)),
-				standardproposer.WithProposalDataProvider(rt),
-				standardproposer.WithValidatingAccountsProvider(rt),
-				standardproposer.WithExecutionChainHeadProvider(rt),
-				standardproposer.WithProposalSubmitter(rt),
-				standardproposer.WithRANDAORevealSigner(signer),
-				standardproposer.WithBeaconBlockSigner(signer),
-				standardproposer.WithBlobSidecarSigner(signer),
-				standardproposer.WithUnblindFromAllRelays(in.UnblindAll),
-				standardproposer.WithBuilderBoostFactor(in.Boost),
-			}
-			if in.Graffiti != "none" {
-				params = append(params, standardproposer.WithGraffitiProvider(rGraffiti{rt}))
-			}
-			if in.Auction != "none" {
-				params = append(params, standardproposer.WithBlockAuctioneer(rAuctioneer{rt}))
-			}
-			svc, err := standardproposer.New(ctx0, params...)
-			if err != nil {
-				t.Fatalf("proposer constructor: %v", err)
-			}
+		w.rec.mu.Lock()
+		o.PrepEvents = w.rec.events
+		w.rec.mu.Unlock()
+	}
 
-			// the duty objects, as the controller creates them when it learns of the duties
-			dutyObjs := make([]*beaconblockproposer.Duty, len(ds))
-			for k, d := range ds {
-				duty := beaconblockproposer.NewDuty(phase0.Slot(d.Slot), phase0.ValidatorIndex(d.Validator))
-				if d.PreAccount != nil {
-					duty.SetAccount(worlds[k].newAccount(*d.PreAccount))
-				}
-				duty.SetRandaoReveal(sigOf(d.PreRandao))
-				dutyObjs[k] = duty
+	stuck := false
+	if together > 0 {
+		setup()
+		results := make([]Obs, together)
+		finished := make(chan int, together)
+		for i := 0; i < together; i++ {
+			results[i].PrepOK = true
+			go func(i int) {
+				prepare(ops[i].Duty, &results[i])
+				finished <- i
+			}(i)
+		}
+		watchdog := time.After(30 * time.Second)
+		for n := 0; n < together && !stuck; n++ {
+			select {
+			case i := <-finished:
+				k := ops[i].Duty
+				obs[k].PrepOK, obs[k].PrepEvents, obs[k].Panic, obs[k].PanicMsg = results[i].PrepOK, results[i].PrepEvents, results[i].Panic, results[i].PanicMsg
+			case <-watchdog:
+				stuck, overlapBroken = true, true
 			}
+		}
+	}
 
-			prepare := func(k int) {
-				o, w := &obs[k], worlds[k]
-				w.begin(false)
-				func() {
-					defer func() {
-						if r := recover(); r != nil {
-							o.Panic = true
-							o.PanicMsg = fmt.Sprintf("Prepare: %v", r)
-						}
-					}()
-					o.PrepOK = svc.Prepare(rt.with(ctx0, w), dutyObjs[k]) == nil
-				}()
-				w.rec.mu.Lock()
-				o.PrepEvents = w.rec.events
-				w.rec.mu.Unlock()
-			}
-			var pending sync.WaitGroup
-			for _, op := range ops {
-				k, d, duty := op.Duty, ds[op.Duty], dutyObjs[op.Duty]
-				if op.Op == "prepare" && op.Go {
-					pending.Add(1)
-					go func() {
-						defer pending.Done()
-						prepare(k)
-					}()
-					continue
+	var bubble any
+	if !stuck {
+		func() {
+			defer func() {
+				if r := recover(); r != nil {
+					bubble = r
 				}
-				pending.Wait()
-				synctest.Wait()
-				if op.Op == "prepare" {
-					prepare(k)
-					continue
+			}()
+			synctest.Test(t, func(t *testing.T) {
+				if svc == nil {
+					setup()
 				}
-				o, w := &obs[k], worlds[k]
-				w.begin(true)
-				o.PostAccount = accountID(duty.Account())
-				reveal := duty.RANDAOReveal()
-				o.PostRandao = get(reveal[:])
-				ctx, cancel := context.WithTimeout(rt.with(ctx0, w), time.Duration(d.Deadline)*time.Millisecond)
-				func() {
-					defer func() {
-						if r := recover(); r != nil {
-							o.Panic = true
-							o.PanicMsg = fmt.Sprintf("Propose: %v", r)
-						}
+				for _, op := range ops[together:] {
+					k, d, duty := op.Duty, ds[op.Duty], dutyObjs[op.Duty]
+					o, w := &obs[k], worlds[k]
+					if op.Op == "prepare" {
+						prepare(k, o)
+						synctest.Wait()
+						continue
+					}
+					w.begin(true)
+					o.PostAccount = accountID(duty.Account())
+					reveal := duty.RANDAOReveal()
+					o.PostRandao = get(reveal[:])
+					ctx, cancel := context.WithTimeout(rt.with(ctx0, w), time.Duration(d.Deadline)*time.Millisecond)
+					func() {
+						defer func() {
+							if r := recover(); r != nil {
+								o.Panic = true
+								o.PanicMsg = fmt.Sprintf("Propose: %v", r)
+							}
+						}()
+						svc.Propose(ctx, duty)
 					}()
-					svc.Propose(ctx, duty)
-				}()
-				o.Ret = w.rec.now()
-				// let every relay goroutine finish
-				if rest := horizon(d) - time.Since(w.rec.start); rest > 0 {
-					time.Sleep(rest)
+					o.Ret = w.rec.now()
+					// let every relay goroutine finish
+					if rest := horizon(d) - time.Since(w.rec.start); rest > 0 {
+						time.Sleep(rest)
+					}
+					synctest.Wait()
+					cancel()
+					w.rec.mu.Lock()
+					o.Events = w.rec.events
+					o.Calls = w.rec.calls
+					o.Submit = w.rec.submit
+					w.proposing = false
+					w.rec.mu.Unlock()
+					done[k] = true
 				}
-				synctest.Wait()
-				cancel()
-				w.rec.mu.Lock()
-				o.Events = w.rec.events
-				o.Calls = w.rec.calls
-				o.Submit = w.rec.submit
-				w.proposing = false
-				w.rec.mu.Unlock()
-				done[k] = true
-			}
-			pending.Wait()
-		})
-	}()
+			})
+		}()
+	}
 	for k := range obs {
+		if stuck && !done[k] {
+			obs[k].Panic = true
+			obs[k].PanicMsg = "overlapping Prepare calls: one of them did not return within 30 s"
+		}
 		if bubble != nil && !done[k] {
 			obs[k].Panic = true
 			obs[k].PanicMsg = fmt.Sprintf("bubble: %v", bubble)
@@ -1196,7 +1240,9 @@ func TestC05(t *testing.T) {
 		in.Tags = append(in.Tags, "corpus")
 		ins = append(ins, in)
 	}
-	rng := NewRand(Seed())
+	// common.NewRand(seed) starts the generator at seed*G + c and every draw adds G: the streams of
+	// seeds k and k+1 are one draw apart, i.e. the same cases shifted by one.  Hash the seed first.
+	rng := NewRand(NewRand(Seed()).U64())
 	for total := 0; total < n; {
 		r := rng.Fork()
 		var in Input
